@@ -720,6 +720,35 @@ theorem tcp_reply_is_library {β ν δ : Type} (lib : Lib β ν δ) (hm : Mono l
       simp [tcpStage, this]
     · intro hno; exact absurd hl (hno b0)
 
+/-- **DNS-over-QUIC: the stream carries the library's encoding with Message ID 0**
+(RFC 9250 §4.2.1) — for every message the library encodes, whether or not the
+pooled packer would have handled it: the frame is the 2-octet length followed
+by exactly `Pack` of the message with `Id = 0`, and its first two payload
+octets are zero; a message the library refuses puts nothing on the stream. -/
+theorem doq_frame_is_library_with_id_zero {β ν δ : Type} (lib : Lib β ν δ) (m : Msg ν) (heap : Heap β) :
+    (∀ f, doqWriteMsg lib m heap = some f →
+      ∃ b, (libPack lib (m.withId 0) heap).1 = .ok b ∧ f = be16 b.length ++ b ∧ b.take 2 = [0, 0]) ∧
+    ((∀ b, (libPack lib (m.withId 0) heap).1 ≠ .ok b) → doqWriteMsg lib m heap = none) := by
+  constructor
+  · intro f hf
+    unfold doqWriteMsg at hf
+    cases hl : (libPack lib (m.withId 0) heap).1 with
+    | ok b =>
+      rw [hl] at hf
+      simp only [Option.some.injEq] at hf
+      refine ⟨b, rfl, hf.symm, ?_⟩
+      obtain ⟨t, ht⟩ := libPackWith_starts_with_header lib (m.withId 0) heap _ b hl
+      rw [ht]
+      simp [headerBytes, Msg.withId, be16]
+    | err e => rw [hl] at hf; cases hf
+    | panic => rw [hl] at hf; cases hf
+  · intro hno
+    unfold doqWriteMsg
+    cases hl : (libPack lib (m.withId 0) heap).1 with
+    | ok b => exact absurd hl (hno b)
+    | err e => rfl
+    | panic => rfl
+
 /-- **What a cache entry keeps** is `PackClone` of the storable view, hence
 (`packClone_eq_library`) the library's encoding of that view — header,
 question, answer, authority, the additional section without its OPT records,
@@ -885,6 +914,14 @@ example : (udpWrite (udpAbort { tx := List.replicate 32 0xEE } [9, 9, 9, 9, 9]) 
 example : (udpCommit { tx := List.replicate 32 0xEE } [4, 5, 6]).1.staged = [4, 5, 6] := by decide
 -- what the seeded shortcut did (stage by length although the bytes are elsewhere) shows the previous reply
 example : ({ tx := List.replicate 32 0xEE, txLen := 3 } : UdpJob).staged = [0xEE, 0xEE, 0xEE] := by decide
+
+-- the toy message (id 0xBEEF) on a DoQ stream: a frame whose payload starts with id 0
+example : ∃ f, doqWriteMsg toyLib toyMsg toyHeap = some f ∧ (f.drop 2).take 2 = [0, 0] := by
+  cases h : doqWriteMsg toyLib toyMsg toyHeap with
+  | none => exact absurd h (by decide)
+  | some f =>
+    obtain ⟨b, _, hf, hz⟩ := (doq_frame_is_library_with_id_zero toyLib toyMsg toyHeap).1 f h
+    exact ⟨f, rfl, by rw [hf]; simpa [be16] using hz⟩
 
 -- the view drops both OPTs (pointers 2 and 3) and keeps the rest in order; the toy primitives satisfy Room
 example : (storableView toyHeap toyMsg).extra = [some 1, some 4] ∧ (storableView toyHeap toyMsg).compress = true := by decide
